@@ -890,13 +890,29 @@ pub fn run_c14(cfg: &Config) -> i32 {
 				let desc = || json!({"sub": "clone-from", "a": doc_of(rt), "b": doc_of(rs)});
 				c14_pair(rep, "clone_from(target,source)-vs-source", &target, &source, true, &desc);
 				c14_pair(rep, "source-after-clone_from", &source, &before, true, &desc);
-				if let (Value::Object(t), Value::Object(sv)) = (&mut target, &source) {
-					// Object::clone_from directly, from a different starting point
+				// Object::clone_from itself (Value's derived Clone assigns a fresh clone and never reaches it):
+				// from the pair's own target, from an unrelated object, and through Vec<Object>::clone_from
+				if let (Value::Object(to), Value::Object(so)) = (&from_rval(rt), &from_rval_push(rs)) {
+					let mut t1 = to.clone();
 					let mut t2 = json_syntax::Object::new();
 					t2.push("zz".into(), Value::Null);
-					t2.clone_from(sv);
-					if t2 != *sv || *t != *sv {
-						rep.violation("C14:clone-differs", format!("Object::clone_from leaves {:?}, source {}", t2.entries().len(), doc_of(rs)), desc());
+					let mut tv = vec![to.clone(), to.clone()];
+					let r = guard(std::panic::AssertUnwindSafe(|| {
+						t1.clone_from(so);
+						t2.clone_from(so);
+						tv.clone_from(&vec![so.clone()]);
+					}));
+					if r.is_err() {
+						rep.violation("C14:panic", format!("Object::clone_from panicked (target {}, source {})", doc_of(rt), doc_of(rs)), desc());
+						return;
+					}
+					let src = Value::Object(so.clone());
+					c14_pair(rep, "Object::clone_from(target,source)-vs-source", &Value::Object(t1), &src, true, &desc);
+					c14_pair(rep, "Object::clone_from(unrelated,source)-vs-source", &Value::Object(t2), &src, true, &desc);
+					if tv.len() != 1 {
+						rep.violation("C14:clone-differs", format!("Vec<Object>::clone_from leaves {} objects", tv.len()), desc());
+					} else {
+						c14_pair(rep, "Vec<Object>::clone_from-vs-source", &Value::Object(tv.pop().unwrap()), &src, true, &desc);
 					}
 				}
 			};
